@@ -394,6 +394,7 @@ func c16Client(cw *c16World, sc *C16Scn, ci int, spec C16Client) {
 			// three NULL calls back to back: under per-IP burst 1 / 1 per second at least one must be refused,
 			// without rate limiting none may be refused for rate reasons
 			s0 := simrt.Stamp()
+			t0 := time.Now()
 			nDenied, nAns := 0, 0
 			for k := 0; k < 3; k++ {
 				rep, err := cl.RawCall(nfsclient.ProgNFS, 3, 0, nil)
@@ -416,7 +417,9 @@ func c16Client(cw *c16World, sc *C16Scn, ci int, spec C16Client) {
 					connAge = "conn-opened-before-update"
 				}
 				if ipAllowed(p.Allowed, host) && !(p.Secure && port >= 1024) {
-					if p.RL && nDenied == 0 {
+					// burst 1 + 1 token/s admits three calls only when at least 2 s pass between the first and the
+					// last (a stalled single worker can spread "back to back" calls that far apart)
+					if p.RL && nDenied == 0 && time.Since(t0) < 1900*time.Millisecond {
 						o.Vio("C16.rate-limit-not-applied-after-update", connAge, "client %d (%s): 3 back-to-back calls all admitted although the policy in force limits this IP to burst 1, 1 request/s (%s)", ci, spec.Addr, connAge)
 					}
 					if !p.RL && nDenied > 0 {
